@@ -107,6 +107,47 @@ def corrupt(text, rng):
     return " ".join(toks) + "\n", k
 
 
+def macro_texts(rng, valid_texts, n):
+    """valid project texts with macro definitions in front and a call inside: cycles of every length, self-reference
+    with and without growth, doubling, long legitimate chains, unknown macros, calls inside macro bodies of comments"""
+    out = []
+    for i in range(n):
+        base = valid_texts[i % len(valid_texts)]
+        kind = rng.choice(["self", "self-grow1", "self-prefix", "double", "cycle2", "cycle3", "cycle-grow", "chain", "unknown",
+                           "nested-ok", "cycle2-pad"])
+        pad = rng.choice(["", " ", "x ", "# c\n"])
+        if kind == "self":
+            defs = "macro a [${a}]\n"
+        elif kind == "self-grow1":
+            defs = "macro a [${a} ]\n"
+        elif kind == "self-prefix":
+            defs = "macro a [" + pad + "${a}]\n"
+        elif kind == "double":
+            defs = "macro a [${a} ${a}]\n"
+        elif kind == "cycle2":
+            defs = "macro a [${b}]\nmacro b [${a}]\n"
+        elif kind == "cycle2-pad":
+            defs = "macro a [ ${b}]\nmacro b [${a} ]\n"
+        elif kind == "cycle3":
+            defs = "macro a [${b}]\nmacro b [${c}]\nmacro c [${a}]\n"
+        elif kind == "cycle-grow":
+            defs = "macro a [${b} ]\nmacro b [y ${a}]\n"
+        elif kind == "chain":
+            k = rng.choice([5, 30, 90, 120])
+            defs = "".join(f"macro m{j} [${{m{j + 1}}}]\n" for j in range(k)) + f"macro m{k} [priority 500]\n"
+        elif kind == "unknown":
+            defs = ""
+        else:
+            defs = "macro inner [priority 300]\nmacro a [${inner}]\n"
+        call = {"chain": "${m0}", "unknown": "${nosuchmacro}"}.get(kind, "${a}")
+        # put the call into the first task body when there is one, else at top level
+        j = base.find("task ")
+        k2 = base.find("{", j) if j >= 0 else -1
+        text = defs + (base[:k2 + 1] + "\n  " + call + "\n" + base[k2 + 1:] if k2 >= 0 and rng.random() < 0.8 else base + call + "\n")
+        out.append((text, kind))
+    return out
+
+
 def run(chk):
     tier = chk.tier
     chk.obligations(["Properties/C11.lean"])
@@ -183,7 +224,21 @@ def run(chk):
         classes[cls] = classes.get(cls, 0) + 1
         if cls not in ("ParseError", "Scheduled"):
             found.append((f"C11: corrupted text ({kd}) raised an internal error instead of a parse error: {ob}", {"text": t, "corruption": kd, "impl": ob}))
-    chk.cov["evaluations"] += len(others) + len(mal)
+    # (iii) macro texts: cycles, self-reference, slow and fast growth, long chains — expansion must stay bounded
+    mtexts = macro_texts(chk.rng, valid_texts, 60 if tier == "quick" else 1500)
+    outs = chk.impl.run(["J " + json.dumps({"op": "sched", "text": t, "budget": 40}) for t, _ in mtexts])
+    mkinds = {}
+    for (t, kd), o in zip(mtexts, outs):
+        mkinds[kd] = mkinds.get(kd, 0) + 1
+        if not o.startswith("J "):
+            found.append((f"C11: macro text ({kd}): {o[:200]}", {"text": t, "macro_kind": kd, "impl": o[:3000]}))
+            continue
+        ob = json.loads(o[2:])
+        cls = ob.get("error", "Scheduled")
+        if cls not in ("ParseError", "Scheduled"):
+            found.append((f"C11: macro text ({kd}) raised an internal error instead of a parse error: {ob}", {"text": t, "macro_kind": kd, "impl": ob}))
+    chk.cov["macro_kinds"] = mkinds
+    chk.cov["evaluations"] += len(others) + len(mal) + len(mtexts)
     chk.cov["distinct_nontrivial"] = len({t for t, _ in mal}) + len(set(texts))
     chk.cov["infeasible_kinds"] = kinds
     chk.cov["malformed_outcomes"] = classes
@@ -191,6 +246,8 @@ def run(chk):
                        "beyond or before the horizon, resources that never work, zero, negative and huge efforts): must schedule or warn, never "
                        "crash or hang (20 s per case plus 0.5 ms per slot x scenario x resource of the case), outcome equal to the Lean model's where the model's domain covers the input; (ii) token-"
                        "level corruptions of valid texts (delete, duplicate, swap, character flip, brace, truncation, junk token): only 'parse "
-                       "error' or a schedule are admissible; non-trivial = distinct texts")
+                       "error' or a schedule are admissible; (iii) macro texts (self-reference with and without growth, doubling, cycles of length 2 and 3, "
+                       "long legitimate chains, unknown macros): expansion must stay bounded — an answer within 40 s, parse error or schedule; "
+                       "non-trivial = distinct texts")
     chk.assumptions += ["Lark's behaviour, Python exceptions in glue code, recursion limits and wall-clock are observed, not modelled (partial)"]
     return conclude(chk, dis, lambda: found)
